@@ -384,6 +384,17 @@ func (fr *Frame) inline(callee *ssa.Function, args []*Val, fv *Val, rt types.Typ
 	sub := &Frame{vc: vc, fn: callee, key: fmt.Sprintf("%s.i%d", sanitize(callee.Name()), vc.inlineSeq), depth: fr.depth + 1, vals: map[ssa.Value]*Val{}, parent: fr,
 		contr: vc.eng.contractOf(callee)}
 	sub.auto = sub.contr == nil && callee.Parent() == nil && vc.eng.autoInline(callee)
+	if sub.contr == nil && callee.Parent() != nil && os.Getenv("GOVC_CLOSUREOWNER") != "" {
+		// an uncontracted local closure that is executed in place (`offer := func(...) {...}; offer(x)`)
+		// is part of the function that defines it: its anchored clauses and ghost state apply inside
+		own := fr.anchorOwner().fn
+		for p := callee.Parent(); p != nil; p = p.Parent() {
+			if p == own {
+				sub.auto = true
+				break
+			}
+		}
+	}
 	for i, p := range callee.Params {
 		if i < len(args) {
 			sub.vals[p] = args[i]
